@@ -385,14 +385,15 @@ def fit_fragment(fragment_atoms, source_atoms, target_atoms):
     rotated_fragment = rotmol(matrix_minus_vect(fragment_atoms, pcentroid), U)
     # move the fragment from zero onto the centroid of the target atoms:
     rotated_fragment = matrix_plus_vect(rotated_fragment, qcentroid)
-    rms = rmsd(q_target, p_source)
+    # deviation of the fitted source atoms from their targets (after the rotation):
+    rms = rmsd(q_target, rotmol(p_source, U))
     return list(rotated_fragment), rms
 
 
 def mytest():
     """
     >>> mytest() # DOCTEST: +REPORT_NDIFF +NORMALIZE_WHITESPACE +ELLIPSIS
-    Kabsch RMSD:    0.339
+    Kabsch RMSD:   0.0191
     C0d   1      0.15641558      0.21086972      0.53025647   11.0  0.04
     C1d   1      0.19919357      0.14858671      0.54377667   11.0  0.04
     C2d   1      0.10665214      0.09954204      0.50648810   11.0  0.04
